@@ -19,6 +19,7 @@
 #include <stdexcept>
 
 #include "C12_sets.h"
+#include "C12_ophist.h"
 #include "bsx.h"
 #include "votca/tools/table.h"
 
@@ -356,7 +357,49 @@ static void run_smooth(std::map<std::string, std::string> &m, Res &R) {
   R.sample = "Smooth(" + std::to_string(ns) + ") " + c12::show(y) + " -> " + sig;
 }
 
+// ------------------------------------------------------------------ h: operation histories on one object
+// mode A: oracles after every step (the oracle's own evaluations then act as probes); mode B: only after the last step
+static void run_hist(std::map<std::string, std::string> &m, Res &R) {
+  std::string type = m["t"];
+  bool every = m["mode"] == "A";
+  auto ops = bsx::split(m["ops"], ',');
+  auto sp = c12::make(type, false);
+  oph::Model mod;
+  std::string done, sig;
+  for (size_t s = 0; s < ops.size(); s++) {
+    if (!oph::apply(ops[s], type, *sp, mod)) { R.fail("bad-case", "harness: operation " + ops[s] + " not applicable after [" + done + "]"); return; }
+    done += (done.empty() ? "" : ",") + ops[s];
+    if (!(every || s + 1 == ops.size())) continue;
+    std::string K = "ophist-" + type + "-after-" + mod.last + "-";
+    std::string where = " (after " + done + ")";
+    sig = oph::compare_with_fresh(type, *sp, mod, R.checks, [&](const std::string &k, const std::string &w) { R.fail(K + k, w + where); });
+    if (mod.kind == oph::Model::NONE) continue;
+    // the statement's own clauses on the object as it is now
+    const Vec &x = mod.grid;
+    size_t n = x.size();
+    if (mod.kind == oph::Model::INTERP || mod.kind == oph::Model::SET) {
+      Vec y = mod.kind == oph::Model::INTERP ? oph::interp_data(mod.k).y : Vec();
+      if (mod.kind == oph::Model::SET) { Vec f2; oph::set_data(mod.k, n, y, f2); }
+      double tolv = 1e-10 * (1 + maxabs(y)) * (1 + 1 / (hmin(x) * hmin(x))) * (mod.kind == oph::Model::SET ? 10 : 1);
+      for (size_t i = 0; i < n; i++) {
+        R.checks++;
+        double v = sp->Calculate(x[i]);
+        if (!(std::fabs(v - y[i]) <= tolv)) R.fail(K + "knot-value", "S(" + fmt(x[i]) + ")=" + fmt(v) + " but the value given for that knot is " + fmt(y[i]) + where);
+      }
+      for (size_t j = 0; j + 1 < n; j++) {
+        Lim a = limit(*sp, x[j], x[j + 1], true), b = limit(*sp, x[j], x[j + 1], false);
+        R.checks += 2;
+        if (!(std::fabs(a.v - y[j]) <= 10 * tolv) || !(std::fabs(b.v - y[j + 1]) <= 10 * tolv))
+          R.fail(K + "continuity", "one-sided limits of S in interval " + std::to_string(j) + " are " + fmt(a.v) + " / " + fmt(b.v) + " but the knot values are " + fmt(y[j]) + " / " + fmt(y[j + 1]) + where);
+      }
+    }
+  }
+  R.classes.push_back("h:" + type + ":" + mod.last + ":" + sig);
+  R.sample = "final state after " + mod.last + ": S,S' at mid points " + sig.substr(0, 80);
+}
+
 static std::string family(const std::string &cas, std::map<std::string, std::string> &m) {
+  if (cas[0] == 'h') return "ophist-" + m["t"];
   switch (cas[0]) {
     case 'i': case 'l': return m["t"] + (m["bc"] == "per" ? "-periodic" : "-natural") + "-interp";
     case 'f': return m["t"] + "-natural-fit";
@@ -371,6 +414,7 @@ static Res run_case(const std::string &cas) {
     else if (cas[0] == 'l') run_linearity(m, R);
     else if (cas[0] == 'f') run_fit(m, R);
     else if (cas[0] == 'm') run_smooth(m, R);
+    else if (cas[0] == 'h') run_hist(m, R);
     else R.fail("bad-case", "unknown case kind");
   } catch (const std::exception &e) {
     R.fail(family(cas, m) + "-exception", std::string("exception: ") + e.what());
@@ -472,6 +516,13 @@ static void all_cases(bool thorough, CaseList &C) {
         for (auto &ab : LINES) { Vec l; for (double xv : x) l.push_back(ab.first + ab.second * xv); Y.push_back(l); }
         for (auto &y : Y) C.push_back("m;n=" + std::to_string(ns) + ";x=" + c12::vecstr(x) + ";y=" + c12::vecstr(y));
       }
+  // operation histories on one object: all valid sequences of 1..3 (thorough: ..4) operations, oracles after every step (A) / at the end (B)
+  for (std::string type : {"cubic", "akima", "linear"})
+    for (int len = 1; len <= (thorough ? 4 : 3); len++)
+      oph::histories(type, len, [&](const std::string &ops) {
+        C.push_back("h;t=" + type + ";mode=A;ops=" + ops);
+        if (len > 1) C.push_back("h;t=" + type + ";mode=B;ops=" + ops);
+      });
   if (!thorough) return;
 
   // ------------------------------------------------------------ THOROUGH ONLY (appended; the cases above are unchanged)
@@ -623,7 +674,10 @@ int main(int argc, char **argv) {
       "(linear, natural cubic); plus grids of 40 and 200 knots (uniform / patterned spacing) with 3 ordinate vectors. f: cubic/linear Fit on 7 fit grids (one with 41 knots) (incl. ranges that are not a multiple of the step) with data on a finer grid: "
       "GenerateGrid knots, reproduction of every spline-space function over the ordinate alphabet, membership + normal equations for 12 (thorough 24) "
       "generic data patterns. m: Table::Smooth(n in {0,1,2,5}) on uniform tables of 2..6 points over the ordinate alphabet + lines: end points, "
-      "straight lines. distinct_nontrivial = distinct result signatures (rounded mid values/slopes, fit knot values, smoothed vectors)";
+      "straight lines. h: operation histories on ONE object: all valid sequences of 1..3 (thorough 4) operations over {setBC, setBCInt, Interpolate(4 data sets on 2 grids), "
+      "GenerateGrid+Fit, Fit on the current grid, setSplineData, getX()=grid+setSplineData, probes Calculate/CalculateDerivative scalar+vector, Print, AddToFitMatrix/"
+      "AddBCToFitMatrix}; after every step (mode A) or after the last step (mode B) value and derivative on knots, knots+-1e-9, quarter points must be bit-identical to a FRESH "
+      "object given only the last data operation, scalar = vector overloads, knot values and one-sided limits as given. distinct_nontrivial = distinct result signatures (rounded mid values/slopes, fit knot values, smoothed vectors)";
   if (thorough)
     R.rule += " || THOROUGH additionally: 6 knots on spacings {0.5,2} x all ordinates, 7 knots x ordinates over {-1,0,2}, 8 knots x ordinates over {-1,2}; spacing "
               "alphabets {0.25,0.75,1.5,3} and decimal {0.1,0.3,0.7} (2..4 knots all ordinates, 5 knots ternary); ordinate alphabets {-2,-1,0,0.5,1,3} and "
